@@ -30,8 +30,8 @@ ASSUMPTIONS = [
     "differ)",
 ]
 FLOORS = {"quick": {"accepted_compared": 20000},
-          "thorough": {"accepted_compared": 150000}}
-N_MODELS = {"quick": 1500, "thorough": 12000}
+          "thorough": {"accepted_compared": 600000}}
+N_MODELS = {"quick": 1500, "thorough": 50000}
 TEXTS = {"quick": 20, "thorough": 36}
 
 
